@@ -150,11 +150,17 @@ fn join_setsketch<I: Reg>(p: SetSketchParams, pname: &str, alphabet: &[u64]) -> 
     out
 }
 
-fn join_superminhash<F: num::Float + rand_distr::uniform::SampleUniform + std::fmt::Debug + Send + Sync>(fname: &str, m: usize, alphabet: &[u64]) -> JoinOut {
+fn join_superminhash<F: num::Float + rand_distr::uniform::SampleUniform + std::fmt::Debug + Send + Sync>(fname: &str, m: usize, alphabet: &[u64]) -> JoinOut
+where
+    rand::distr::StandardUniform: rand::distr::Distribution<F>,
+{
     join_superminhash_h::<F, FnvHasher>(fname, m, alphabet)
 }
 
-fn join_superminhash_h<F: num::Float + rand_distr::uniform::SampleUniform + std::fmt::Debug + Send + Sync, H: std::hash::Hasher + Default>(fname: &str, m: usize, alphabet: &[u64]) -> JoinOut {
+fn join_superminhash_h<F: num::Float + rand_distr::uniform::SampleUniform + std::fmt::Debug + Send + Sync, H: std::hash::Hasher + Default>(fname: &str, m: usize, alphabet: &[u64]) -> JoinOut
+where
+    rand::distr::StandardUniform: rand::distr::Distribution<F>,
+{
     let mk = || SuperMinHash::<F, u64, H>::new(m, BuildHasherDefault::<H>::default());
     let bits = |s: &SuperMinHash<F, u64, H>| -> Vec<f64> { s.get_hsketch().iter().map(|f| f.to_f64().unwrap()).collect() };
     let singles: Vec<Vec<f64>> = alphabet
@@ -639,6 +645,12 @@ pub fn run(ctx: &Ctx) -> i32 {
             details.push(json!({"part": "join", "sketcher": format!("SetSketcher<u16> m={}", m), "subsets": o.subsets, "executions": o.execs}));
         }
     }
+    // ---- join on witness pairs searched through the real f32 sketcher (rounding witnesses, level-0 collisions; c03)
+    {
+        let (wevals, wdetails) = crate::props::c03::same_set_streams(ctx, (crate::common::splitmix64(ctx.seed ^ 0xC05) >> 24) << 3, "join:witness-pairs");
+        execs += wevals;
+        details.push(json!({"part": "join on searched witness pairs", "configurations": wdetails.len()}));
+    }
     // ---- join: SuperMinHash with the pass-through hasher on an alphabet that contains item 0 (hash 0)
     {
         let alpha0: Vec<u64> = (0..alphabet.len() as u64).collect();
@@ -736,7 +748,7 @@ pub fn run(ctx: &Ctx) -> i32 {
         "exhaustive": true,
         "evaluations": execs,
         "distinct_nontrivial": states,
-        "rule": "join: all non-empty subsets of a 10 (12) item alphabet (all orders for |S|<=4, four canonical orders above) against the position-wise min (SuperMinHash f32/f64, m in {1,2,5,16,(40)} and, on a 4-item alphabet, m = 65537 (65535, 65536), item-wise and through one slice call; also with the no-op hasher on an alphabet containing item 0) resp. max (SetSketcher u8/u16/u32, 5 (b,q) sets x 3-5 m) of the REAL single-item sketches, plus low_sketch <= min register; merge: ALL sequences up to depth 4 (5) over 18 ops (3 instances x {2 shared items, 1 own item, 1 overlapping burst} + 6 ordered merges) for 4 parameter sets x {u16,u8}, final state of every instance against a set model (merge = union), estimate monotone on the last op; commutativity/associativity/idempotence/merge=union/streaming-after-merge on all triples of a 16-set family incl. empty sets; refusal for 116 parameter pairs x {u16,u8 (overflowing)} registers differing in exactly one field (b or a by 32..2^20 ulp or 1e-12..1e5 relative - differences below 4 epsilon relative, which the code treats as rounding noise, are not judged; m; q), receiver unchanged at once and in how it sketches the rest of its stream (against a twin that never saw the refused merge); distinct = distinct joined sketches",
+        "rule": "join: all non-empty subsets of a 10 (12) item alphabet (all orders for |S|<=4, four canonical orders above) against the position-wise min (SuperMinHash f32/f64, m in {1,2,5,16,(40)} and, on a 4-item alphabet, m = 65537 (65535, 65536), item-wise and through one slice call; also on pairs searched through the real f32 sketcher (rounding witnesses and items whose level-0 entries collide, see C03); also with the no-op hasher on an alphabet containing item 0) resp. max (SetSketcher u8/u16/u32, 5 (b,q) sets x 3-5 m) of the REAL single-item sketches, plus low_sketch <= min register; merge: ALL sequences up to depth 4 (5) over 18 ops (3 instances x {2 shared items, 1 own item, 1 overlapping burst} + 6 ordered merges) for 4 parameter sets x {u16,u8}, final state of every instance against a set model (merge = union), estimate monotone on the last op; commutativity/associativity/idempotence/merge=union/streaming-after-merge on all triples of a 16-set family incl. empty sets; refusal for 116 parameter pairs x {u16,u8 (overflowing)} registers differing in exactly one field (b or a by 32..2^20 ulp or 1e-12..1e5 relative - differences below 4 epsilon relative, which the code treats as rounding noise, are not judged; m; q), receiver unchanged at once and in how it sketches the rest of its stream (against a twin that never saw the refused merge); distinct = distinct joined sketches",
         "merge_sequences": nseq,
         "merge_depth": depth,
         "details": details,
